@@ -49,7 +49,13 @@ def hosts():
     # the gap right behind the first nucleotide (residue 2 deleted) and right before the last one (residue 5 deleted)
     h4 = [_spec(d[0], "A"), _spec(d[2], "A"), _spec(d[3], "A"), _spec(d[4], "A"), _spec(d[5], "A")]
     h5 = [_spec(d[0], "A"), _spec(d[1], "A"), _spec(d[2], "A"), _spec(d[3], "A"), _spec(d[5], "A")]
-    return {"two-chains": h1, "gap": h2, "with-ligand": h3, "gap-after-first": h4, "gap-before-last": h5}
+    # a chain that comes back after another chain (A A B B A): strands are the runs of the file, not the distinct chain names
+    h6 = [_spec(d[0], "A"), _spec(d[1], "A"), _spec(d[12], "B"), _spec(d[13], "B"), _spec(d[2], "A")]
+    # an abasic nucleotide (no base atoms, unrecognisable name): its one-letter name is '?', a legal letter that must appear as such in every text
+    ab = d[0]
+    abasic = ("A", ab["number"], None, "3DR", "?", [(n, np.array([x, y, z])) for n, x, y, z, el in ab["atoms"] if n in ("P", "OP1", "OP2", "O5'", "C5'", "C4'", "O4'", "C3'", "O3'", "C2'", "O2'", "C1'")])
+    h7 = [abasic, _spec(d[1], "A"), _spec(d[2], "A"), _spec(d[12], "B"), _spec(d[13], "B")]
+    return {"two-chains": h1, "gap": h2, "with-ligand": h3, "gap-after-first": h4, "gap-before-last": h5, "chain-returns": h6, "abasic-first": h7}
 
 
 _hosts = {}
@@ -139,11 +145,14 @@ def cases(tier):
     q = tier == "quick"
     for hn in hosts():
         al = alphabet(hn, tier)
+        # the three original hosts get all pairs of entries; the hosts added for numbering / strand slicing get all single entries and all pairs
+        # over the class-less cWW / cWH entries (their subject is the text layout, not conflict resolution)
+        al2 = al if (hn in ("two-chains", "gap", "with-ligand") or not q) else [e for e in al if e[3] is None and e[2] in ("cWW", "cWH")]
         for gaps in (False, True):
             yield dict(host=hn, gaps=gaps, entries=[])
             for a in al:
                 yield dict(host=hn, gaps=gaps, entries=[list(a)])
-            for a, b in itertools.product(al, repeat=2):
+            for a, b in itertools.product(al2, repeat=2):
                 yield dict(host=hn, gaps=gaps, entries=[list(a), list(b)])
             if not q:
                 # triples: restricted to entries without Saenger and to residue 0 as hub or one shared class, so that degree-3 multiplets,
@@ -259,8 +268,8 @@ def run_case(case):
             out.append(viol("dbn:pairs", "per-strand dot-bracket does not decode to the BPSEQ matching", cat_str, sorted(pairs)))
     chains_expected = []
     for rr in nts_all:
-        if rr.chain not in chains_expected:
-            chains_expected.append(rr.chain)
+        if not chains_expected or chains_expected[-1] != rr.chain:
+            chains_expected.append(rr.chain)  # one strand per run of a chain in file order
     if [b[0] for b in blocks] != chains_expected:
         out.append(viol("dbn:strands", "strands are not the chains in file order", [b[0] for b in blocks], chains_expected))
     for txt in alldb:
